@@ -41,6 +41,8 @@ CONSTANTS
     ZRem,       \* values of `remaining = 0` a Byzantine peer may claim (BOOLEAN: any)
     DevCheckpointFromAllow, \* TRUE: self-test mutation -- the WORKER picks the checkpoint path from the allow height on
     DevSkipSeenValidation,  \* TRUE: self-test mutation -- pre-validation is skipped for blocks whose state is already stored
+    DevCheckpointPayoutUnbound, \* TRUE: named deviation -- the miner payout VALUE of a checkpoint block is bound by nothing
+    DevPayoutCountUnchecked,    \* TRUE: self-test mutation -- the miner payout COUNT of a checkpoint block is not checked
     DevNoPreValidation, \* TRUE: self-test mutation -- batches above the require height are submitted without ValidateBlock
     Labels      \* TRUE: act carries the transition label (edge export, safety runs with VIEW); FALSE: constant
 
@@ -62,9 +64,10 @@ VARIABLES
     banned,  \* SUBSET (H \X Nodes)   PeerStore.Ban calls
     misb,    \* SUBSET (H \X Z)       provable misbehaviour observed
     goal,    \* the heaviest honest initial tip (history variable fixed by Init)
+    dead,    \* SUBSET H: honest nodes whose process died (an unrecovered panic in a sync goroutine)
     act      \* label of the last transition (hidden by VIEW)
 
-vars == <<known, tip, link, round, seen, htip, sync, banned, misb, goal>>
+vars == <<known, tip, link, round, seen, htip, sync, banned, misb, goal, dead>>
 allvars == <<vars, act>>
 sview == vars
 
@@ -92,6 +95,7 @@ TypeOK ==
     /\ \A n \in H : sync[n].on \in BOOLEAN /\ sync[n].base \in Blocks /\ sync[n].top \in Blocks /\ sync[n].nxt \in Nat
     /\ banned \subseteq (H \X Nodes)
     /\ misb \subseteq (H \X Z)
+    /\ dead \subseteq H
 
 Init ==
     /\ \E f \in InitTips :
@@ -106,6 +110,7 @@ Init ==
     /\ sync = [n \in H |-> NoSync]
     /\ banned = {}
     /\ misb = {}
+    /\ dead = {}
     /\ act = Lbl([op |-> "Init"])
 
 -----------------------------------------------------------------------------
@@ -157,7 +162,7 @@ Connect(a, b) ==
     /\ <<a, b>> \notin banned /\ <<b, a>> \notin banned
     /\ link' = [link EXCEPT ![<<a, b>>] = "unsynced", ![<<b, a>>] = "unsynced"]
     /\ act' = Lbl([op |-> "Connect", a |-> a, b |-> b])
-    /\ UNCHANGED <<known, tip, round, seen, htip, sync, banned, misb, goal>>
+    /\ UNCHANGED <<known, tip, round, seen, htip, sync, banned, misb, goal, dead>>
 
 -----------------------------------------------------------------------------
 (* syncLoop, syncer.go:784-864 *)
@@ -172,7 +177,7 @@ SyncTick(n) ==
     /\ seen' = [seen EXCEPT ![n] = {}]
     /\ htip' = [htip EXCEPT ![n] = tip[n]]
     /\ act' = Lbl([op |-> "SyncTick", n |-> n])
-    /\ UNCHANGED <<known, tip, link, sync, banned, misb, goal>>
+    /\ UNCHANGED <<known, tip, link, sync, banned, misb, goal, dead>>
 
 StartSync(n, p, base, top, rem0) ==
     /\ sync' = [sync EXCEPT ![n] = [on |-> TRUE, src |-> p, base |-> base, top |-> top, nxt |-> 0, rem0 |-> rem0]]
@@ -184,7 +189,7 @@ HandleRespHonest(n, p) ==
     /\ p \in round[n]
     /\ ~sync[n].on
     /\ round' = [round EXCEPT ![n] = @ \ {p}]
-    /\ UNCHANGED <<known, tip, htip, banned, misb, goal>>
+    /\ UNCHANGED <<known, tip, htip, banned, misb, goal, dead>>
     /\ IF link[<<n, p>>] # "unsynced"
          THEN /\ UNCHANGED <<link, sync, seen>>
               /\ act' = Lbl([op |-> "Headers", n |-> n, p |-> p, res |-> "gone"])
@@ -211,7 +216,7 @@ HandleRespByz(n, z) ==
     /\ z \in round[n]
     /\ ~sync[n].on
     /\ round' = [round EXCEPT ![n] = @ \ {z}]
-    /\ UNCHANGED <<known, tip, htip, banned, misb, goal>>
+    /\ UNCHANGED <<known, tip, htip, banned, misb, goal, dead>>
     /\ IF link[<<n, z>>] # "unsynced"
          THEN /\ UNCHANGED <<link, sync, seen>>
               /\ act' = Lbl([op |-> "Headers", n |-> n, p |-> z, res |-> "gone"])
@@ -240,11 +245,11 @@ HandleRespByz(n, z) ==
 (* parallelSync, parallel_sync.go:17-239 *)
 
 \* the batch is served by worker w with exactly the announced blocks and applied
-ApplyBatch(n, w, bs) ==
+ApplyBatch(n, w, bs, void) ==
     LET validated == T.h[T.par[bs[1]]] >= ReqH IN
     \* known[n] holds every block whose (header) state is stored -- including blocks that were submitted,
     \* failed full validation and were rolled back (chain/manager.go:276-278): "stored" is not "validated"
-    IF validated /\ ~DevNoPreValidation /\ \E i \in DOMAIN bs : T.cls[bs[i]] # "ok" /\ (DevSkipSeenValidation => bs[i] \notin known[n])
+    IF validated /\ ~DevNoPreValidation /\ ~void /\ \E i \in DOMAIN bs : T.cls[bs[i]] # "ok" /\ (DevSkipSeenValidation => bs[i] \notin known[n])
       THEN \* consensus.ValidateBlock against the checkpoint-derived state fails: ban, batch discarded
            /\ BanUpd(n, w)
            /\ misb' = IF w \in Z THEN misb \cup {<<n, w>>} ELSE misb
@@ -269,8 +274,8 @@ FetchHonest(n, w) ==
     /\ sync[n].nxt < NBatches(n)
     /\ link[<<n, w>>] = "unsynced"
     /\ CanServe(w, BatchOf(n))
-    /\ ApplyBatch(n, w, BatchOf(n))
-    /\ UNCHANGED <<round, seen, htip, goal>>
+    /\ ApplyBatch(n, w, BatchOf(n), FALSE)
+    /\ UNCHANGED <<round, seen, htip, goal, dead>>
 
 \* a Byzantine worker may serve the exact blocks (whatever their validity); every other answer
 \* (blocks not matching the headers, wrong count, malformed, stall, bogus checkpoint state / block /
@@ -281,8 +286,42 @@ FetchByz(n, z) ==
     /\ sync[n].nxt < NBatches(n)
     /\ link[<<n, z>>] = "unsynced"
     /\ Fetchable(BatchOf(n))
-    /\ ApplyBatch(n, z, BatchOf(n))
-    /\ UNCHANGED <<round, seen, htip, goal>>
+    /\ ApplyBatch(n, z, BatchOf(n), FALSE)
+    /\ UNCHANGED <<round, seen, htip, goal, dead>>
+
+\* Corruptions of the SendCheckpoint answer (state, block) for the base of a batch on the pre-validated
+\* path.  Peer.SendCheckpoint (peer.go:168-183) must reject every one of them -- the worker fails and
+\* nothing changes -- because whatever passes is the state every block of the batch is validated against
+\* (and, for RetrieveCheckpoint, what NewDBStoreAtCheckpoint applies without validation):
+\*   state-field     any field of the parent state altered            -> commitment mismatch
+\*   wrong-block     another (consistent) pair                        -> wrong index
+\*   not-v2 / body   v1 block, swapped transactions                   -> not a v2 block / commitment mismatch
+\*   payout-address  miner address changed                            -> commitment mismatch
+\*   payouts-empty   MinerPayouts emptied (id intact)                 -> "not a v2 block"; unchecked: index panic
+\*   payouts-extra   a made-up payout appended after the genuine one  -> "not a v2 block"; unchecked: accepted
+\*   payout-value    the single payout's value inflated               -> must be checked against the state
+\*                   (covered neither by the v2 id nor by the commitment)
+\*   malformed / stall
+\* An ACCEPTED altered pair makes pre-validation void: the peer controls the state the blocks are checked against.
+CkptCorruptions == {"state-field", "wrong-block", "not-v2", "body", "payout-address", "payouts-empty", "payouts-extra",
+                    "payout-value", "malformed", "stall"}
+FetchByzCkpt(n, z, c) ==
+    /\ z \in Z
+    /\ c \in CkptCorruptions
+    /\ sync[n].on
+    /\ sync[n].nxt < NBatches(n)
+    /\ link[<<n, z>>] = "unsynced"
+    /\ T.h[T.par[BatchOf(n)[1]]] >= ReqH
+    /\ Fetchable(BatchOf(n))
+    /\ IF c = "payouts-empty" /\ DevPayoutCountUnchecked
+         THEN /\ dead' = dead \cup {n}
+              /\ act' = Lbl([op |-> "FetchCkpt", n |-> n, w |-> z, c |-> c, res |-> "panic"])
+              /\ UNCHANGED <<known, tip, link, round, seen, htip, sync, banned, misb, goal>>
+       ELSE IF (c = "payouts-extra" /\ DevPayoutCountUnchecked) \/ (c = "payout-value" /\ DevCheckpointPayoutUnbound)
+         THEN /\ ApplyBatch(n, z, BatchOf(n), TRUE)
+              /\ UNCHANGED <<round, seen, htip, goal, dead>>
+       ELSE /\ act' = Lbl([op |-> "FetchCkpt", n |-> n, w |-> z, c |-> c, res |-> "rejected"])
+            /\ UNCHANGED vars
 
 \* "all peers failed to sync blocks": no honest worker can serve the next batch
 SyncAbort(n) ==
@@ -291,7 +330,7 @@ SyncAbort(n) ==
     /\ ~\E w \in H : link[<<n, w>>] = "unsynced" /\ CanServe(w, BatchOf(n))
     /\ sync' = [sync EXCEPT ![n] = NoSync]
     /\ act' = Lbl([op |-> "SyncAbort", n |-> n])
-    /\ UNCHANGED <<known, tip, link, round, seen, htip, banned, misb, goal>>
+    /\ UNCHANGED <<known, tip, link, round, seen, htip, banned, misb, goal, dead>>
 
 \* every batch applied: a peer that sent all its headers is marked synced (syncer.go:855-860)
 SyncDone(n) ==
@@ -301,7 +340,7 @@ SyncDone(n) ==
                  THEN [link EXCEPT ![<<n, sync[n].src>>] = "synced"] ELSE link
     /\ sync' = [sync EXCEPT ![n] = NoSync]
     /\ act' = Lbl([op |-> "SyncDone", n |-> n])
-    /\ UNCHANGED <<known, tip, round, seen, htip, banned, misb, goal>>
+    /\ UNCHANGED <<known, tip, round, seen, htip, banned, misb, goal, dead>>
 
 -----------------------------------------------------------------------------
 (* relay handlers, peer.go:353-453.  Announce: an honest node (re-)announces its tip -- *)
@@ -314,7 +353,7 @@ Announce(a, b, kind) ==
     /\ LET x == tip[a]
            p == T.par[x]
        IN /\ act' = Lbl([op |-> "Announce", a |-> a, b |-> b, kind |-> kind])
-          /\ UNCHANGED <<round, seen, htip, sync, misb, goal>>
+          /\ UNCHANGED <<round, seen, htip, sync, misb, goal, dead>>
           /\ IF p \notin known[b]
                THEN \* unknown parent
                     /\ link' = Resync(link, b, a)
@@ -350,7 +389,7 @@ Announce(a, b, kind) ==
 ZRelay(z, n, eff, x) ==
     /\ z \in Z /\ n \in H
     /\ link[<<n, z>>] # "off"
-    /\ UNCHANGED <<round, seen, htip, sync, goal>>
+    /\ UNCHANGED <<round, seen, htip, sync, goal, dead>>
     /\ act' = Lbl([op |-> "ZRelay", z |-> z, n |-> n, eff |-> eff, x |-> x])
     /\ eff # "block" => x = G
     /\ CASE eff = "ban" ->
@@ -379,6 +418,7 @@ Next ==
     \/ \E n \in H : SyncTick(n) \/ SyncAbort(n) \/ SyncDone(n)
     \/ \E n \in H, p \in Nodes : HandleRespHonest(n, p) \/ HandleRespByz(n, p)
     \/ \E n \in H, w \in Nodes : FetchHonest(n, w) \/ FetchByz(n, w)
+    \/ \E n \in H, z \in Z, c \in CkptCorruptions : FetchByzCkpt(n, z, c)
     \/ \E a, b \in H, kind \in {"hdr", "outline"} : Announce(a, b, kind)
     \/ \E z \in Z, n \in H, eff \in {"ban", "resync", "block"}, x \in Blocks : ZRelay(z, n, eff, x)
 
@@ -429,6 +469,9 @@ WorkMonotone ==
 
 \* provable misbehaviour is reported to the peer store
 ProvableMisbehaviourBanned == misb \subseteq banned
+
+\* no honest node's process dies
+NeverPanics == dead = {}
 
 \* an honest peer is never banned
 NoHonestBan == banned \cap (H \X H) = {}
